@@ -40,10 +40,12 @@ const (
 	opQueuePending
 	opYield
 	opCrash
+	opSpawn   // bind a further consumer worker to the shared adapter (C13)
+	opAddBare // submit through a bare NewDistributedQueue producer ("another process")
 	nOps
 )
 
-var opNames = [nOps]string{"Add", "AddAll", "CloseJob", "Purge", "CloseQueue", "Wait", "Result", "Drain", "Status", "BatchWait", "BatchRead", "BatchPending", "Pause", "PauseAndWait", "Resume", "Stop", "WaitAndStop", "Restart", "TunePool", "WaitUntilFinished", "Bind", "CancelCtx", "OpenGate", "Settle", "Advance", "Sample", "QueuePending", "Yield", "Crash"}
+var opNames = [nOps]string{"Add", "AddAll", "CloseJob", "Purge", "CloseQueue", "Wait", "Result", "Drain", "Status", "BatchWait", "BatchRead", "BatchPending", "Pause", "PauseAndWait", "Resume", "Stop", "WaitAndStop", "Restart", "TunePool", "WaitUntilFinished", "Bind", "CancelCtx", "OpenGate", "Settle", "Advance", "Sample", "QueuePending", "Yield", "Crash", "SpawnConsumer", "AddBare"}
 
 // Op: K kind; Q queue index; A argument (sub number, batch number, tune value,
 // time units, bind kind); Subs: submission numbers of an Add/AddAll.
@@ -381,6 +383,35 @@ func (wd *World) runOp(op Op) {
 		r.end(c)
 	case opYield:
 		simrt.YieldAlways()
+	case opSpawn:
+		root := wd.root
+		if root.sharedAd == nil || len(root.qs) == 0 {
+			return
+		}
+		c := r.begin(opSpawn, -1, -1)
+		c.Arg = op.A
+		cw := root.spawnConsumer(op.A, root.qs[0].cfg)
+		c.W = cw.cidx
+		r.end(c)
+	case opAddBare:
+		s := wd.subByN(op.Subs[0])
+		q := wd.queue(s.Q)
+		if q == nil || q.addBare == nil || s.Submitted {
+			return
+		}
+		c := r.begin(opAdd, q.idx, s.N)
+		c.Arg = 1
+		s.AddInv = c.Inv
+		q.addsInvoked++
+		ok := q.addBare(s.N, s.Prio, s.ID)
+		c.OK = ok
+		if !s.AcceptKnown {
+			s.AcceptKnown, s.Accepted = true, ok
+		}
+		r.end(c)
+		s.AddRet = c.Ret
+		s.publish()
+		s.Submitted = true
 	}
 }
 
